@@ -6,7 +6,7 @@ import os
 import re
 
 LEAN = os.path.join(os.path.dirname(os.path.dirname(os.path.abspath(__file__))), "lean")
-SHARED = {"HashInj": ["C01", "C07"], "C10b": ["C10"], "C01R": ["C01"], "C05R": ["C05"], "C07P": ["C07"], "C10R": ["C10"], "C02T": ["C02"], "C06R": ["C06"], "C12R": ["C12"], "C14R": ["C14"], "C16A": ["C16"], "C01S": ["C01"], "C03S": ["C03"], "C13S": ["C13"], "C03N": ["C03", "C11"], "C03T": ["C03"], "C07R": ["C07", "C05"], "C09X": ["C09", "C01"], "C02R": ["C02"], "C16S": ["C16", "C13", "C19"], "C15O": ["C15", "C14"], "C08M": ["C08"], "C08I": ["C08"], "C03W": ["C03"], "C05T": ["C05", "C01", "C08"]}
+SHARED = {"HashInj": ["C01", "C07"], "C10b": ["C10"], "C01R": ["C01"], "C05R": ["C05"], "C07P": ["C07"], "C10R": ["C10"], "C02T": ["C02"], "C06R": ["C06"], "C12R": ["C12"], "C14R": ["C14"], "C16A": ["C16"], "C01S": ["C01"], "C03S": ["C03"], "C13S": ["C13"], "C03N": ["C03", "C11"], "C03T": ["C03"], "C07R": ["C07", "C05"], "C09X": ["C09", "C01"], "C02R": ["C02"], "C16S": ["C16", "C13", "C19"], "C15O": ["C15", "C14"], "C08M": ["C08"], "C08I": ["C08"], "C03W": ["C03"], "C05T": ["C05", "C01", "C08"], "C16M": ["C16"]}
 
 
 def theorems(path):
